@@ -475,7 +475,54 @@ fn cli_batch_vs_singles(env: &vsim::clisim::run::Env, tree: &vsim::clisim::types
     Ok(None)
 }
 
+/// State a tool keeps outside the formatted files (under HOME: a cache, stamps, a history) must
+/// not change what a later invocation does: invocation 2 is run (i) after invocation 1 with the
+/// HOME that invocation 1 left, and (ii) on the same tree with a fresh HOME; exit status, stdout
+/// and the resulting tree must be identical. (`world_a` = invocation 1 with its fault plan,
+/// `world_b` = invocation 2.)
+fn cli_home_freshness(env: &vsim::clisim::run::Env, tree: &vsim::clisim::types::Tree, inv1: &Inv, inv2: &Inv) -> Result<Option<String>, String> {
+    use vsim::clisim::world::{materialise, snapshot, snapshot_tree};
+    let wipe_home = || {
+        let _ = std::fs::remove_dir_all(env.home());
+        let _ = std::fs::create_dir_all(env.home());
+    };
+    materialise(&env.root(), tree).map_err(|e| e.to_string())?;
+    wipe_home();
+    let o0 = vsim::clisim::run::run_inv(env, inv1).map_err(|e| e.to_string())?;
+    if o0.signal.is_some() {
+        return Ok(None);
+    }
+    let t1 = snapshot_tree(&snapshot(&env.root()).map_err(|e| e.to_string())?);
+    let oa = vsim::clisim::run::run_inv(env, inv2).map_err(|e| e.to_string())?;
+    let ta = snapshot_tree(&snapshot(&env.root()).map_err(|e| e.to_string())?);
+    materialise(&env.root(), &t1).map_err(|e| e.to_string())?;
+    wipe_home();
+    let ob = vsim::clisim::run::run_inv(env, inv2).map_err(|e| e.to_string())?;
+    let tb = snapshot_tree(&snapshot(&env.root()).map_err(|e| e.to_string())?);
+    if oa.signal.is_some() || ob.signal.is_some() {
+        return Ok(None);
+    }
+    if ta != tb {
+        let k = ta.iter().find(|(k, v)| tb.get(*k) != Some(*v)).map(|(k, _)| k.clone()).or_else(|| tb.keys().find(|k| !ta.contains_key(*k)).cloned()).unwrap_or_default();
+        return Ok(Some(format!("the same invocation on the same tree leaves a different tree depending on what an earlier invocation left under HOME (first differing path {:?}; earlier invocation: typstyle {} with plan {:?})", k, vsim::util::excerpt(inv1.argv("{ROOT}").join(" ").as_bytes(), 200), inv1.plan.iter().map(|r| r.render()).collect::<Vec<_>>())));
+    }
+    if oa.exit != ob.exit {
+        return Ok(Some(format!("the same invocation on the same tree exits {:?} after an earlier invocation and {:?} with a fresh HOME", oa.exit, ob.exit)));
+    }
+    let strip = |o: &vsim::clisim::run::Outcome| -> Vec<u8> {
+        // the summary line of format-all contains a duration
+        o.stdout.split(|c| *c == b'\n').filter(|l| !l.windows(3).any(|w| w == b" in") || !l.ends_with(b"s")).collect::<Vec<_>>().join(&b'\n')
+    };
+    if strip(&oa) != strip(&ob) {
+        return Ok(Some("the same invocation on the same tree prints different text on stdout depending on what an earlier invocation left under HOME".to_string()));
+    }
+    Ok(None)
+}
+
 fn cli_replay_differs(env: &vsim::clisim::run::Env, r: &CliWorldsReplay) -> Result<Option<String>, String> {
+    if r.mode == "home-freshness" {
+        return cli_home_freshness(env, &r.tree, &r.world_a, &r.world_b);
+    }
     if r.mode == "batch-vs-singles" {
         cli_batch_vs_singles(env, &r.tree, &r.world_a)
     } else {
@@ -519,6 +566,7 @@ fn cli_worlds_differ(env: &vsim::clisim::run::Env, tree: &vsim::clisim::types::T
 struct CliLane {
     pairs: u64,
     batch_pairs: u64,
+    home_pairs: u64,
     faults_in_b: u64,
     found: Option<CliWorldsReplay>,
     errors: Vec<String>,
@@ -528,7 +576,7 @@ fn cli_worlds_lane(base: u64, n: u64, workers: usize) -> CliLane {
     use std::sync::atomic::{AtomicU64, Ordering};
     use std::sync::{Arc, Mutex};
     let next = Arc::new(AtomicU64::new(0));
-    let out = Arc::new(Mutex::new(CliLane { pairs: 0, batch_pairs: 0, faults_in_b: 0, found: None, errors: vec![] }));
+    let out = Arc::new(Mutex::new(CliLane { pairs: 0, batch_pairs: 0, home_pairs: 0, faults_in_b: 0, found: None, errors: vec![] }));
     let fixtures = Arc::new(load_fixtures());
     let mut hs = Vec::new();
     for w in 0..workers {
@@ -551,6 +599,35 @@ fn cli_worlds_lane(base: u64, n: u64, workers: usize) -> CliLane {
                         continue;
                     }
                 };
+                // every third seed: does what an earlier invocation left under HOME matter?
+                if i % 3 == 2 {
+                    let invs: Vec<Inv> = case.steps.iter().filter_map(|s| if let Step::Inv(x) = s { Some(x.clone()) } else { None }).collect();
+                    let Some(first) = invs.first().cloned() else { continue };
+                    let mut inv1 = first.clone();
+                    let mut frng = vsim::rng::Rng::stream(seed, "faults");
+                    vsim::clisim::plan::add_plan(&mut frng, "hard", &case.tree, &mut inv1, &mut oracle, 40);
+                    // a crash or a failed std stream may legitimately leave HOME in any state
+                    inv1.plan.retain(|r| r.kind != "crash" && !(r.kind == "write" && r.sel.starts_with('@')));
+                    let mut inv2 = if invs.len() > 1 && frng.chance(0.4) { invs[1].clone() } else { first.clone() };
+                    inv2.plan.clear();
+                    inv2.readdir = "sorted".into();
+                    if inv2.cwd != "." && !matches!(case.tree.get(&inv2.cwd), Some(vsim::clisim::types::Node::Dir)) {
+                        inv2.cwd = ".".into();
+                    }
+                    match cli_home_freshness(&env, &case.tree, &inv1, &inv2) {
+                        Ok(res) => {
+                            let mut o = out.lock().unwrap();
+                            o.home_pairs += 1;
+                            if let Some(msg) = res {
+                                if o.found.is_none() {
+                                    o.found = Some(CliWorldsReplay { engine: "cliworlds".into(), property: "C17".into(), tree: case.tree.clone(), world_a: inv1, world_b: inv2, mode: "home-freshness".into(), message: msg });
+                                }
+                            }
+                        }
+                        Err(e) => out.lock().unwrap().errors.push(format!("seed {}: {}", seed, e)),
+                    }
+                    continue;
+                }
                 // odd seeds: one process for a list vs one process per file
                 if i % 2 == 1 {
                     let Some(Step::Inv(inv)) = case.steps.iter().find(|s| matches!(s, Step::Inv(Inv { shape: Shape::Files { mode: Mode::Stdout | Mode::Inplace, paths }, .. }) if paths.len() >= 2)).cloned() else { continue };
@@ -610,7 +687,7 @@ fn cli_worlds_lane(base: u64, n: u64, workers: usize) -> CliLane {
     for h in hs {
         let _ = h.join();
     }
-    let mut lane = std::mem::replace(&mut *out.lock().unwrap(), CliLane { pairs: 0, batch_pairs: 0, faults_in_b: 0, found: None, errors: vec![] });
+    let mut lane = std::mem::replace(&mut *out.lock().unwrap(), CliLane { pairs: 0, batch_pairs: 0, home_pairs: 0, faults_in_b: 0, found: None, errors: vec![] });
     // minimise: drop world-B rules and environment, shorten the inputs line-wise
     if let Some(mut r) = lane.found.take() {
         let env = cli_env(9999);
@@ -619,6 +696,12 @@ fn cli_worlds_lane(base: u64, n: u64, workers: usize) -> CliLane {
         while i < r.world_b.plan.len() {
             let mut c = r.clone();
             c.world_b.plan.remove(i);
+            if still(&c).is_some() { r = c } else { i += 1 }
+        }
+        let mut i = 0;
+        while r.mode == "home-freshness" && i < r.world_a.plan.len() {
+            let mut c = r.clone();
+            c.world_a.plan.remove(i);
             if still(&c).is_some() { r = c } else { i += 1 }
         }
         let mut c = r.clone();
@@ -815,6 +898,7 @@ fn miri_flags(extra: &str) -> String {
     format!("-Zmiri-preemption-rate=0.1 -Zmiri-tree-borrows -Zmiri-ignore-leaks {}", extra)
 }
 
+#[allow(dead_code)]
 fn run_miri(scenario: usize, flags: &str) -> Result<String, String> {
     run_miri_args(&[scenario.to_string()], flags)
 }
@@ -850,6 +934,27 @@ fn classify_miri(text: &str) -> Option<(String, String)> {
 }
 
 fn miri_lane(seeds_per_scenario: u64, scenarios: &[usize], gen_base: u64) -> MiriOutcome {
+    // two scenarios at a time (each runs its seeds in parallel inside Miri already)
+    let start = Instant::now();
+    let mut total = MiriOutcome { gen_args: BTreeMap::new(), ok_runs: 0, failures: vec![], unavailable: None, wall_s: 0.0 };
+    for pair in scenarios.chunks(2) {
+        let hs: Vec<_> = pair.iter().map(|&sc| std::thread::spawn(move || miri_lane_seq(seeds_per_scenario, &[sc], gen_base))).collect();
+        for h in hs {
+            if let Ok(o) = h.join() {
+                total.gen_args.extend(o.gen_args);
+                total.ok_runs += o.ok_runs;
+                total.failures.extend(o.failures);
+                if total.unavailable.is_none() {
+                    total.unavailable = o.unavailable;
+                }
+            }
+        }
+    }
+    total.wall_s = start.elapsed().as_secs_f64();
+    total
+}
+
+fn miri_lane_seq(seeds_per_scenario: u64, scenarios: &[usize], gen_base: u64) -> MiriOutcome {
     let start = Instant::now();
     let mut o = MiriOutcome { gen_args: BTreeMap::new(), ok_runs: 0, failures: vec![], unavailable: None, wall_s: 0.0 };
     for &sc in scenarios {
@@ -959,7 +1064,7 @@ fn cmd_run(args: &[String]) -> i32 {
         println!("  argv: typstyle {}", r.world_b.argv("{ROOT}").join(" "));
         reported.push(json!({"invariant": "V17.6-cli-worlds", "message": r.message, "replay": path}));
     }
-    let cli_json = json!({"process_pairs_compared": cl.pairs, "batch_vs_one_process_per_file_compared": cl.batch_pairs, "benign_fault_rules_in_world_B": cl.faults_in_b, "errors": cl.errors.iter().take(5).collect::<Vec<_>>(),
+    let cli_json = json!({"process_pairs_compared": cl.pairs, "batch_vs_one_process_per_file_compared": cl.batch_pairs, "stale_HOME_vs_fresh_HOME_compared": cl.home_pairs, "benign_fault_rules_in_world_B": cl.faults_in_b, "errors": cl.errors.iter().take(5).collect::<Vec<_>>(),
         "note": "same tree, same argv; world A: no fault, sorted directories, empty environment; world B: short reads/writes, EINTR, clock jumps, other randomness, environment variables; stdout bytes and exit status must be identical"});
 
     // ---- lane B4: a long-lived single-threaded process
@@ -989,8 +1094,8 @@ fn cmd_run(args: &[String]) -> i32 {
     // quick: only the scenario with concurrent calls under different configurations (the one place
     // where a race inside code that has no hook point can hide), 16 seeds; thorough: all four
     // scenarios, 32 seeds each
-    let miri_seeds: u64 = arg_value(args, "--miri-seeds").and_then(|x| x.parse().ok()).unwrap_or(if tier == "thorough" { 32 } else { 16 });
-    let miri_scenarios: Vec<usize> = if tier == "thorough" { vec![0, 1, 2, 3, 100, 101, 102, 103, 104, 105, 106, 107] } else { vec![3] };
+    let miri_seeds: u64 = arg_value(args, "--miri-seeds").and_then(|x| x.parse().ok()).unwrap_or(if tier == "thorough" { 32 } else { 12 });
+    let miri_scenarios: Vec<usize> = if tier == "thorough" { vec![0, 1, 2, 3, 4, 100, 101, 102, 103, 104, 105, 106, 107] } else { vec![3, 4] };
     let mut miri_json = json!({"run": false, "note": "lane B3 switched off (--miri-seeds 0)"});
     if miri_seeds > 0 {
         let m = miri_lane(miri_seeds, &miri_scenarios, base);
